@@ -781,7 +781,18 @@ def errprop_rule(ctx, fn_pred, label, cfgs=("A", "B"), floor=10):
                 if dest["l"] == 0 and not dest["p"]:
                     ok, how = True, "returned"
                 else:
-                    uses = uses_of_local(fa, dest["l"])
+                    # the value may be handed on by plain moves (the return slot of an expanded
+                    # helper / closure, a `let r = ..;`) before it is consumed
+                    alias = [dest["l"]]
+                    for l0 in alias:
+                        for bb2, i2, s2 in fa.stmts():
+                            if "lhs" in s2 and not s2["lhs"]["p"] and s2["rv"]["k"] == "use":
+                                pl = op_place(s2["rv"]["op"])
+                                if pl and pl["l"] == l0 and not pl["p"] and s2["lhs"]["l"] not in alias:
+                                    alias.append(s2["lhs"]["l"])
+                    if 0 in alias:
+                        ok, how = True, "returned"
+                    uses = [u for l0 in alias for u in uses_of_local(fa, l0)]
                     for (ub, ut, idx) in uses:
                         ups = [strip_generics(x) for x in callee_paths(ut)] if ut["k"] == "call" else []
                         if any("Try::branch" in x for x in ups):
@@ -799,7 +810,7 @@ def errprop_rule(ctx, fn_pred, label, cfgs=("A", "B"), floor=10):
                     if not ok:
                         # matched on: the discriminant of the result is inspected
                         for bb2, i2, s2 in fa.stmts():
-                            if "rv" in s2 and s2["rv"]["k"] == "discr" and s2["rv"]["place"]["l"] == dest["l"]:
+                            if "rv" in s2 and s2["rv"]["k"] == "discr" and s2["rv"]["place"]["l"] in alias:
                                 ok, how = True, "match"
                     if not uses:
                         # moved into _0 via assignment?
